@@ -678,6 +678,7 @@ func c15TPuts(run *PropRun) {
 		}
 	}
 	c15TPutsEnum(run)
+	c15TColorHistory(run)
 	run.Groups = append(run.Groups, groupObligations(c.Obs)...)
 	c.Obs = nil
 	run.Extra["tputs_strings_from_database"] = len(jobs) - len(tputsCorpus)
@@ -1004,4 +1005,53 @@ func c07Malformed(run *PropRun) {
 	g.ReplayDir = run.Eng.Repo + "/terminfo"
 	g.ReplayGo = src
 	run.Extra["malformed_program_corpus_bounded"] = len(progs)
+}
+
+// c15TColorHistory: the colour string for (fg,bg) does not depend on which colour strings were asked for before -
+// the per-description evaluations above judge each call on a fresh state, so a result that is remembered under a
+// colliding key would escape them (and a cache built on sync.Map is outside the evaluator's subset). Bounded native
+// stand-in: on one Terminfo value per description, every (fg,bg) over a list of boundary values in sequence, each
+// answer compared with the answer of a fresh copy of the description.
+func c15TColorHistory(run *PropRun) {
+	src := replayTest("tcell", []string{modPath + "/terminfo", "_ " + modPath + "/terminfo/extended"}, `
+	vals := []int{-1, 0, 1, 7, 8, 9, 15, 16, 87, 88, 100, 255, 256, 257, 300}
+	n := 0
+	bad := ""
+	for _, name := range []string{"xterm-256color", "xterm", "xterm-88color", "linux", "foot", "vt100"} {
+		ti, err := terminfo.LookupTerminfo(name)
+		if err != nil { bad = fmt.Sprintf("lookup %s: %v", name, err); break }
+		for _, fg := range vals {
+			for _, bg := range vals {
+				got := ti.TColor(fg, bg)
+				fresh := *ti
+				want := (&fresh).TColor(fg, bg)
+				n++
+				if got != want && bad == "" {
+					bad = fmt.Sprintf("%s: TColor(%d,%d) after a history of other calls is %q, on a fresh copy of the description %q", name, fg, bg, got, want)
+				}
+			}
+		}
+		if bad != "" { break }
+	}
+	if bad != "" { fmt.Println("TCOLORHIST FAIL " + bad); fail("%s", bad); return }
+	fmt.Printf("TCOLORHIST OK %d\n", n)`)
+	out, err := runOverlayTest(run.Eng.Repo, run.Eng.Repo, src, 120*time.Second, nil)
+	ok, detail := false, ""
+	for _, ln := range strings.Split(out, "\n") {
+		if strings.HasPrefix(ln, "TCOLORHIST OK ") {
+			ok = true
+			detail = strings.TrimPrefix(ln, "TCOLORHIST OK ") + " calls"
+		}
+		if strings.HasPrefix(ln, "TCOLORHIST FAIL ") && detail == "" {
+			detail = strings.TrimPrefix(ln, "TCOLORHIST FAIL ")
+		}
+	}
+	if !ok && detail == "" {
+		run.Errors = append(run.Errors, fmt.Sprintf("TColor history check did not run: %v %s", err, tail(out, 400)))
+		return
+	}
+	g := run.AddObligation("tcolor/history-independent", "table-bounded", BoolT(ok),
+		"on six descriptions, every (fg,bg) over 15 boundary values asked in sequence of one Terminfo gives the string a fresh copy of the description gives (native, bounded): "+detail)
+	g.ReplayDir = run.Eng.Repo
+	g.ReplayGo = src
 }
